@@ -173,10 +173,66 @@ func (d *peerDrain) Read(buf []byte) (int, error) {
 	return 0, nil
 }
 
+// poolLog records the flate-reader get/put/use events of all connections through the verif hook.
+type poolLog struct {
+	mu    sync.Mutex
+	evs   []string          // g:c:o / p:c:o / u:c:o with small integer ids
+	conns map[*websocket.Conn]int
+	objs  map[uintptr]int
+	owner map[int]int       // object → connection (the harness's own monitor)
+	bad   string
+}
+
+func newPoolLog() *poolLog {
+	return &poolLog{conns: map[*websocket.Conn]int{}, objs: map[uintptr]int{}, owner: map[int]int{}}
+}
+
+func (l *poolLog) hook(c *websocket.Conn, kind string, obj uintptr) {
+	l.mu.Lock()
+	defer l.mu.Unlock()
+	ci, ok := l.conns[c]
+	if !ok {
+		ci = len(l.conns)
+		l.conns[c] = ci
+	}
+	switch kind {
+	case "get-flate-reader":
+		oi, ok := l.objs[obj]
+		if !ok {
+			oi = len(l.objs)
+			l.objs[obj] = oi
+		}
+		if o, held := l.owner[oi]; held && l.bad == "" {
+			l.bad = fmt.Sprintf("inflater %d handed to connection %d while connection %d still owns it", oi, ci, o)
+		}
+		l.owner[oi] = ci
+		l.evs = append(l.evs, fmt.Sprintf("g:%d:%d", ci, oi))
+	case "put-flate-reader":
+		oi, ok := l.objs[obj]
+		if !ok {
+			return
+		}
+		if o, held := l.owner[oi]; (!held || o != ci) && l.bad == "" {
+			l.bad = fmt.Sprintf("connection %d released inflater %d which it does not own", ci, oi)
+		}
+		delete(l.owner, oi)
+		l.evs = append(l.evs, fmt.Sprintf("p:%d:%d", ci, oi))
+	case "use-limit-reader-source":
+		oi, ok := l.objs[obj]
+		if !ok {
+			return // not an inflater (the frame reader itself, or the detached EOF source)
+		}
+		if o, held := l.owner[oi]; (!held || o != ci) && l.bad == "" {
+			l.bad = fmt.Sprintf("connection %d read through inflater %d which it does not own (use after Put)", ci, oi)
+		}
+		l.evs = append(l.evs, fmt.Sprintf("u:%d:%d", ci, oi))
+	}
+}
+
 func runC07(ctx *runCtx) {
 	rep := ctx.rep
 	rep.Rule = "2..8 connections run concurrently (both roles, compression off / takeover / no takeover), every byte of every payload on connection i is the tag byte of i; per round one of: read again after end-of-message, abandon a message, peer Close frame inside a (compressed, fragmented) message, CloseNow racing a reader inside a message, context expiry inside a message, plain reads, writes with an abandoned Writer; then Close/CloseNow and a new connection that reuses the pools. " +
-		"oracle: every byte returned by any read equals the connection's own tag. Thorough tier repeats under the race detector. distinct = (conns, rounds, seed)"
+		"oracle: every byte returned by any read equals the connection's own tag; the verif hook logs every inflater Get/Put/use with connection and object identity, checked by an ownership monitor in the harness and by the Lean monitor. Thorough tier repeats under the race detector. distinct = (conns, rounds, seed)"
 	rng := newRng(ctx.seed, "c07")
 	batches := 12
 	if ctx.thorough() {
@@ -185,8 +241,11 @@ func runC07(ctx *runCtx) {
 	if raceEnabled {
 		batches /= 3
 	}
+	var lines, expect, what []string
 	for bi := 0; bi < batches; bi++ {
 		cc := c07Case{Conns: 2 + rng.Intn(7), Rounds: 25, Seed: ctx.seed*1000 + int64(bi)}
+		plog := newPoolLog()
+		websocket.VerifSetEventHook(plog.hook)
 		leak := make(chan string, 1)
 		var wg sync.WaitGroup
 		panicked := make(chan string, 16)
@@ -206,8 +265,19 @@ func runC07(ctx *runCtx) {
 			}(i)
 		}
 		wg.Wait()
+		websocket.VerifSetEventHook(nil)
 		rep.eval(fmt.Sprintf("%+v", cc))
 		rep.count(fmt.Sprintf("conns:%d", cc.Conns))
+		plog.mu.Lock()
+		rep.Dist["pool-events"] += len(plog.evs)
+		if plog.bad != "" {
+			rep.violate(Violation{Kind: "property", Shape: "pooled-inflater-used-without-ownership", What: plog.bad, Replay: cc})
+		} else if len(plog.evs) > 0 && len(plog.evs) < 40000 {
+			lines = append(lines, "pool-monitor "+strings.Join(plog.evs, ","))
+			expect = append(expect, "ok accept")
+			what = append(what, fmt.Sprintf("ownership log of batch %d (%d events)", bi, len(plog.evs)))
+		}
+		plog.mu.Unlock()
 		select {
 		case l := <-leak:
 			rep.violate(Violation{Kind: "property", Shape: "foreign-bytes-returned", What: l, Replay: cc})
@@ -222,6 +292,7 @@ func runC07(ctx *runCtx) {
 			rep.sample(cc)
 		}
 	}
+	askAndCompare(ctx, lines, expect, what, "pool-model-vs-impl")
 	if raceEnabled {
 		rep.count("race-detector-on")
 	}
